@@ -2,6 +2,7 @@ package rules
 
 import (
 	"go/ast"
+	"go/types"
 	"go/token"
 
 	"sialint/internal/cfgx"
@@ -95,7 +96,10 @@ func c19r2(c *Ctx) {
 	c13r3(c)
 	// ok-flag discipline in the apply step and the update stream: the block value is used only on the ok side
 	r := getChainRoles(c.P)
-	bap := c.P.FuncObj("chain", "blockAndParent")
+	bap := funcWithResults(c.P, "chain", isNamedT("types", "Block"), func(t types.Type) bool {
+		pt, ok := t.(*types.Pointer)
+		return ok && ir.IsNamed(pt.Elem(), ir.PkgPath("consensus"), "V1BlockSupplement")
+	}, isNamedT("consensus", "State"), isBasicKind(types.Bool))
 	for _, f := range r.methods {
 		g := f.Graph()
 		for _, call := range f.CallsTo(false, r.storeBlock, bap) {
